@@ -122,4 +122,32 @@ theorem takeWhile_all {p : Char → Bool} (a : List Char) (ha : ∀ x ∈ a, p x
     have := ih (fun y hy => ha y (List.mem_cons_of_mem _ hy))
     simp [List.takeWhile, List.dropWhile, hx, this.1, this.2]
 
+/-! ### `adaptHeader` leaves every key it does not name alone -/
+
+theorem get_foldl_set_other (kvs : List (String × String)) (h : Hdr) (k : String)
+    (hk : k ∉ kvs.map (·.1)) : Hdr.get (kvs.foldl (fun h kv => h.set kv.1 kv.2) h) k = h.get k := by
+  induction kvs generalizing h with
+  | nil => rfl
+  | cons a t ih =>
+    simp only [List.foldl_cons]
+    simp only [List.map_cons, List.mem_cons, not_or] at hk
+    rw [ih _ hk.2, Hdr.get_set_other _ _ hk.1]
+
+theorem get_foldl_add_other (kvs : List (String × String)) (h : Hdr) (k : String)
+    (hk : k ∉ kvs.map (·.1)) : Hdr.get (kvs.foldl (fun h kv => h.add kv.1 kv.2) h) k = h.get k := by
+  induction kvs generalizing h with
+  | nil => rfl
+  | cons a t ih =>
+    simp only [List.foldl_cons]
+    simp only [List.map_cons, List.mem_cons, not_or] at hk
+    rw [ih _ hk.2, Hdr.get_add_other _ _ hk.1]
+
+theorem get_adaptHeader_other (a : AdSpec) (h : Hdr) (k : String) (hk : k ∉ a.hkeys) :
+    Hdr.get (adaptHeader a h) k = h.get k := by
+  unfold AdSpec.hkeys at hk
+  simp only [List.mem_append, not_or] at hk
+  unfold adaptHeader
+  simp only []
+  rw [get_foldl_add_other _ _ _ hk.2, get_foldl_set_other _ _ _ hk.1.2, Hdr.get_delAll, if_neg hk.1.1]
+
 end EgVerif.Proxy
